@@ -187,9 +187,9 @@ def run(tier, rep):
     q = tier == "quick"
     r = C.run_tlc("MCEnv", f"Env_{tier}.cfg", allow_violation=False, timeout=1800, heap="12g")
     rep.tlc(f"Env[{tier}]", r)
-    # a seeded sample of the enumeration is executed (quick: 30 000; thorough: 600 000 - the full enumeration of the
+    # a seeded sample of the enumeration is executed (quick: 30 000; thorough: 400 000 - the full enumeration of the
     # thorough bound does not fit into the memory of this machine next to TLC)
-    sc, enumerated = scripts_from(r, 30000 if q else 600000, C.SEED)
+    sc, enumerated = scripts_from(r, 30000 if q else 400000, C.SEED)
     r.out = ""
     rs = C.run_tlc("MCEnv", "Env_sim.cfg", simulate=f"num={400 if q else 6000}", depth=8, seed=C.SEED + 5, workers=1,
                    allow_violation=False, timeout=2400)
